@@ -153,18 +153,22 @@ def r10_1(ctx) -> None:
     sorts = [n for n in own_nodes(node) if isinstance(n, ast.Call) and norm(n.func) in ("sorted", "frozenset", "set")]
     ctx.check(not sorts and not facts["sorts_kwds"], "R10.1", u, sorts[0] if sorts else "from_call",
               "keyword items enter the key in call order, like the stdlib (no sorting / set)")
-    # (c) typed suffix
+    # (c) typed suffix: type(...) applied to every positional and to every keyword *value*
     ctx.count("key_clauses")
-    typed_parts = [norm(n) for n in own_nodes(node) if isinstance(n, ast.Call) and norm(n.func) == "map"
-                   and n.args and norm(n.args[0]) == "type"]
-    has_pos = any(t == f"map(type, {p_args})" for t in typed_parts)
-    has_kw = any(t == f"map(type, {p_kwds}.values())" for t in typed_parts)
+    typed_nodes = []
+    typed_over = []
+    for n in own_nodes(node):
+        src = _type_of_each(n)
+        if src is not None:
+            typed_nodes.append(n)
+            typed_over.append(src)
+    has_pos = p_args in typed_over
+    has_kw = f"{p_kwds}.values()" in typed_over
     ctx.check(has_pos and has_kw, "R10.1", u, "typed key suffix",
               "typed=True appends the type of every positional and every keyword value",
-              witness=f"found {typed_parts}")
-    typed_guarded = all(_under_test(node, n, p_typed) for n in own_nodes(node)
-                        if isinstance(n, ast.Call) and norm(n.func) == "map" and n.args and norm(n.args[0]) == "type")
-    ctx.check(typed_guarded and bool(typed_parts), "R10.1", u, "typed key suffix",
+              witness=f"type() is applied over {typed_over}")
+    typed_guarded = all(_under_test(node, n, p_typed) for n in typed_nodes)
+    ctx.check(typed_guarded and bool(typed_nodes), "R10.1", u, "typed key suffix",
               "the type suffix is added only when typed is set")
     # (d) fast path
     ctx.count("key_clauses")
@@ -208,6 +212,18 @@ def r10_1(ctx) -> None:
     wraps = [n for n in own_nodes(node) if isinstance(n, ast.Return) and isinstance(n.value, ast.Call)
              and norm(n.value.func) in ("cls", "CallKey")]
     ctx.check(bool(wraps), "R10.1", u, "from_call", "every non-fast key is wrapped as CallKey(key)")
+
+
+def _type_of_each(n: ast.AST) -> Optional[str]:
+    """`map(type, X)` or a comprehension / generator `type(v) for v in X` -> text of X."""
+    if isinstance(n, ast.Call) and norm(n.func) == "map" and len(n.args) == 2 and norm(n.args[0]) == "type":
+        return norm(n.args[1])
+    if isinstance(n, (ast.GeneratorExp, ast.ListComp)) and len(n.generators) == 1 and not n.generators[0].ifs:
+        g = n.generators[0]
+        if isinstance(n.elt, ast.Call) and norm(n.elt.func) == "type" and len(n.elt.args) == 1 \
+                and norm(n.elt.args[0]) == norm(g.target):
+            return norm(g.iter)
+    return None
 
 
 def _param_defaults(fn) -> Dict[str, ast.AST]:
